@@ -30,6 +30,7 @@ def cases(draw, tier):
             case['weights'] = [draw(st.integers(0, wmax)) for _ in range(n)]
         return case
     case['host'] = draw(arith.hosts(min_inputs=1, max_inputs=6 if big else 5, max_gates=10 if big else 7))
+    case['host_route'] = draw(arith.gen.routes(case['host']))
     repeat = draw(st.integers(0, 5)) == 0
     if kind in ('add_two_numbers', 'add_two_numbers_shift'):
         na, nb = draw(st.integers(1, 6)), draw(st.integers(1, 6))
@@ -131,7 +132,7 @@ def check_sum(case):
 
         # ---- add_* forms on a host
         host = case['host']
-        c = build.build(host)
+        c = build.build(host, case.get('host_route'))
         before = wellformed.snapshot(c)
         nin = len(host['inputs'])
         pats, mask, full = arith.rows_for(nin, case['row_seed'])
